@@ -163,7 +163,10 @@ fn wide_pass(thorough: bool, acc: &mut Acc) -> Vec<u32> {
 pub fn run(run: Run) -> ! {
     let nmax = if run.is_thorough() { 9 } else { 6 };
     let npat = if run.is_thorough() { 12 } else { 6 };
-    let thetas = theta();
+    let mut thetas = theta();
+    // a delay that is huge relative to the cycle (absolute keyframe times of neighbouring positions collide in f32)
+    thetas.push(Timing::new(0.25, 4096.0, Rep::None, false));
+    thetas.push(Timing::new(3.0, 65536.0, Rep::Times(1), true));
     let grids: Vec<Vec<f32>> = thetas.iter().map(|th| tau(th, 32)).collect();
     let init = P::sentinel();
     let vs = vstar();
@@ -295,7 +298,7 @@ pub fn run(run: Run) -> ! {
     cov.insert("traces_validated_against_impl".into(), json!(acc.evals));
     cov.insert("evaluations".into(), json!(acc.evals));
     cov.insert("distinct_nontrivial".into(), json!(acc.perms_differing_order));
-    cov.insert("rule".into(), json!(format!("every subset of 1..={nmax} distinct positions from {{0,1/8,..,1}} and from a dense grid {{0,.125,.126,.129,.131,.5,.501,.999,1}} (positions closer than 1%), and - for up to 6 keyframes - from a grid with positions outside [0,1] {{-.5,0,.25,.5,.75,1,1.25,1.5,3}} x {npat} (+{}) content patterns (property subsets, per-keyframe easings) x ALL permutations of the insertion order (timing configuration cycled over the 6 of Theta) x {{plain, start_with}} x time grid; plus a WIDE family (2^j+1 keyframes, counts under wide_family_keyframe_counts, two property patterns, two timings) inserted in six structured orders (reversed, rotated, even-then-odd, bit-reversed, one adjacent swap, blocks of 7 reversed) at every keyframe position and segment midpoint; every other permuted timeline is built from a clone of its configuration while the original is alive, and the settings are made before / after / between the keyframe calls (4 placements rotating over the permutations); oracle: values bit-identical and metadata identical to the ascending-order build; non-trivial = non-identity permutations checked", (npat / 2).max(2))));
+    cov.insert("rule".into(), json!(format!("every subset of 1..={nmax} distinct positions from {{0,1/8,..,1}} and from a dense grid {{0,.125,.126,.129,.131,.5,.501,.999,1}} (positions closer than 1%), and - for up to 6 keyframes - from a grid with positions outside [0,1] {{-.5,0,.25,.5,.75,1,1.25,1.5,3}} x {npat} (+{}) content patterns (property subsets, per-keyframe easings) x ALL permutations of the insertion order (timing configuration cycled over the 6 of Theta and two with a delay 16384 / 21845 times the cycle) x {{plain, start_with}} x time grid; plus a WIDE family (2^j+1 keyframes, counts under wide_family_keyframe_counts, two property patterns, two timings) inserted in six structured orders (reversed, rotated, even-then-odd, bit-reversed, one adjacent swap, blocks of 7 reversed) at every keyframe position and segment midpoint; every other permuted timeline is built from a clone of its configuration while the original is alive, and the settings are made before / after / between the keyframe calls (4 placements rotating over the permutations); oracle: values bit-identical and metadata identical to the ascending-order build; non-trivial = non-identity permutations checked", (npat / 2).max(2))));
     cov.insert("out_of_range_items_skipped_because_the_ascending_build_panics".into(), json!(acc.skipped_base_panics));
     cov.insert("exhaustive".into(), json!(true));
     cov.insert("distinct_observed_outcomes_capped".into(), json!(acc.outcomes.len()));
